@@ -15,7 +15,7 @@ RULE = ('pairs of real bilform calls related by (i) exchanging the two space int
         'by some rotation. distinct = distinct (curve, mesh, pair, relation, switch)')
 ASSUMPTIONS = ['L-shape: exchange and time shift only (no non-trivial symmetry is claimed)',
                'a time shift is used only if all four shifted end points are exact (Fraction equality), so that all four time differences are unchanged']
-REQUIRED = {t: ['rel:exchange', 'rel:time-shift', 'rel:rotation', 'rel:reflection', 'moved:interior->seam-touch', 'moved:onto-other-side', 'pair:synthetic-coarse-fine',
+REQUIRED = {t: ['rel:exchange', 'rel:time-shift', 'rel:rotation', 'rel:reflection', 'moved:interior->seam-touch', 'moved:onto-other-side', 'pair:synthetic-coarse-fine', 'pair:synthetic-nested-thin-slab',
                 'switch:exact', 'switch:quad', 'curve:UnitSquare', 'curve:PiSquare', 'curve:LShape', 'curve:Circle']
             for t in ('quick', 'thorough')}
 TIMEOUT = {'quick': 900, 'thorough': 5400}
@@ -167,6 +167,26 @@ def run_shard(spec, acc):
         if lag == 0:
             pairs.append((n + len(extra) - 1, n + len(extra) - 2))
         acc.seen('pair:synthetic-coarse-fine')
+    # synthetic NESTED pairs in thin slabs: a panel of space level 0-3 of a side and a panel 2-5 levels deeper inside it (strictly inside,
+    # or sharing an end), in different slabs (a leaf and a finer leaf over it, as under local refinement in space over several slabs)
+    for q_ in range(spec['n_pairs'] // 3 if curve != 'LShape' else 0):
+        si = rng.randrange(ns)
+        pc = [rng.randrange(2) for _ in range(rng.randint(0, 3))]
+        pf = pc + [rng.randrange(2) for _ in range(rng.randint(2, 5))]
+        coarse, fine = descend(sides[si], pc), descend(sides[si], pf)
+        ht = 2.0**-rng.randint(4, 14)
+        k0, lag = rng.randint(0, 3), rng.choice([1, 1, 2, 5])
+        tc, tf = (k0 * ht, (k0 + 1) * ht), ((k0 + lag) * ht, (k0 + lag + 1) * ht)
+        if rng.random() < 0.5:
+            tc, tf = tf, tc
+        if q_ == 0 and curve == 'UnitSquare' and spec['name'] == 'mesh-UnitSquare-0':
+            # the recorded finding's own witness (K5): a quarter of side 0 strictly inside the whole side, slabs of height 2^-12
+            coarse, fine, tc, tf = sides[0], descend(sides[0], [0, 1]), (0.0, 2.0**-12), (2.0**-11, 3 * 2.0**-12)
+        for (tt_, xx_) in ((tf, fine), (tc, coarse)):
+            extra.append(dummy(tt_, xx_))
+        a_, b_ = n + len(extra) - 2, n + len(extra) - 1
+        pairs.append((a_, b_) if tf[0] > tc[0] else (b_, a_))
+        acc.seen('pair:synthetic-nested-thin-slab')
     elems = elems + extra
     for i, j in pairs:
         test, trial = elems[i], elems[j]
@@ -232,7 +252,16 @@ def run_shard(spec, acc):
                         acc.seen('moved:onto-other-side')
                     acc.worst_of('%s (%s)' % (kind, sw), err)
                     if not (err <= 1e-7):
-                        acc.violation('motion-changes-entry:%s:%s' % (kind, sw),
+                        key = 'motion-changes-entry:%s:%s' % (kind, sw)
+                        if kind == 'reflection' and c0 == 'nested-interior':
+                            # recorded finding K5 (known-findings.txt): strictly nested pairs take different quadrature routes in the two
+                            # orientations; measured on 18 000 synthetic pairs: difference <= 1.6e-9 * A * R (A = H^2/h_t of the containing
+                            # panel, R = H/h the length ratio), above 1e-7 from A*R ~ 2000 on, saturating at 1.5e-3
+                            big, small = (test, trial) if test.h_x >= trial.h_x else (trial, test)
+                            asp_ratio = big.h_x**2 / big.h_t * (big.h_x / small.h_x)
+                            if asp_ratio >= 1024 and err <= min(5e-9 * asp_ratio, 5e-3):
+                                key = 'motion-changes-entry:reflection:nested-interior:thin-slab'
+                        acc.violation(key,
                                       '%s: entry %.17g, after %s (k=%d, sub=%r) %.17g: %.3e of the diagonal scale; image test %r trial %r'
                                       % (curve, base, kind, k, sub, v, err, ix, jx), dict(w, motion=[kind, k, sub], image_test=ix, image_trial=jx))
             except Exception as ex:
